@@ -11,7 +11,7 @@ import (
 func init() {
 	register("C05", "Decides only the comparison and encoding clauses of iteration that are visible in the code: (R05.1) Seek encodes its target with the read timestamp going forward and with version 0 going backward; (R05.2) parseItem skips internal keys unless InternalAccess and hides versions <= SinceTs only when SinceTs > 0; (R05.3) tables are skipped only when their max version is below SinceTs or their key range lies outside the prefix, and the bloom filter is used only when the prefix is a whole key. The bulk of the property (exactly-once, order, prefix boundaries for arbitrary byte strings) is NOT decided.", propC05)
 	register("C33", "Decides that one expiry predicate is consulted on every user-facing read path: (R33.1) Txn.Get (pending and stored value), Iterator.parseItem, Stream.ToList, Stream.Backup's list function and the merge operator all use isDeletedOrExpired / Item.IsDeletedOrExpired; (R33.2) the predicate is: delete bit ⇒ gone; no expiry ⇒ live; otherwise gone iff expiresAt <= now; (R33.3=R13.1/R13.2) compaction treats expired like deleted only at or below the discard watermark and keeps a marker while older versions may exist; value-log GC skips expired entries. Does NOT decide time-dependent behaviour.", propC33)
-	register("C28", "Decides (R28.1) that in Txn.modify every store to the transaction's state is dominated by all validation tests, the ban check and a successful size check, and checkSize commits its counters only on success; (R28.2) the size reservation arithmetic: the per-entry reserve covers the key's growth at commit and the initial reserve covers the worst-case end-of-transaction entry, with both sides using the same count/size comparison; (R28.3) the ban check is consulted by writes, Get and iteration. Does NOT decide the individual limits' values nor the round trip of accepted keys.", propC28)
+	register("C28", "Decides (R28.1) that in Txn.modify every store to the transaction's state is dominated by all validation tests, the ban check and a successful size check, and checkSize commits its counters only on success; (R28.2) the size reservation arithmetic: the per-entry reserve covers the key's growth at commit and the initial reserve covers the worst-case end-of-transaction entry, with both sides using the same count/size comparison; (R28.3) the ban check is consulted by writes, Get and iteration. Later rules (see the rule list): R28.4 the closed list of rejections with their relations and constants, R28.5 the ban test on the user key with its exact length bound, R29.5 key kinds, R06.1 the pinned threshold in the size estimate. Does NOT decide the round trip of accepted keys.", propC28)
 }
 
 func ruleR05_1(c *Check) {
